@@ -414,56 +414,90 @@ example :
 
 /-! ### 6b. The glyph order the font keeps in step with its layers -/
 
-/-- glyph_order_change_announced.  From EVERY state of a font (layers with their glyph names, a stored glyph order or
-none) and for every operation that goes through the font or its layers — `newGlyph`, `insertGlyph`, `del layer[name]`,
-a glyph renamed (also onto a taken name, also a name that lives on in another layer), `font.glyphOrder = …`, layers
-created and deleted: at most one `Font.GlyphOrderChanged` is delivered; its old value is what `font.glyphOrder`
-answered before the operation, its new value what `font.glyphOrder` answers when the observer is called and after
-the operation (payload = the stored lib value, compared modulo `None == []`); and WHENEVER `font.glyphOrder` answers
-differently after the operation than before it, that notification IS delivered.  (`stepN` is M-GlyphOrder, the model
-C12 is proved about, plus the one post of `_set_glyphOrder`: `order_model_is_glyph_order_model`.) -/
-theorem glyph_order_change_announced (f : GlyphOrderV1.Font) (op : GlyphOrderV1.Op) (h : OrderNotify.viaFont op = true) :
-    (∀ ev ∈ (OrderNotify.stepN f op).2,
-      OrderNotify.norm ev.old = GlyphOrderV1.glyphOrder f ∧ OrderNotify.norm ev.new = OrderNotify.norm ev.snap ∧
-      OrderNotify.norm ev.snap = GlyphOrderV1.glyphOrder (OrderNotify.stepN f op).1.1) ∧
-    (OrderNotify.stepN f op).2.length ≤ 1 ∧
-    (GlyphOrderV1.glyphOrder (OrderNotify.stepN f op).1.1 ≠ GlyphOrderV1.glyphOrder f →
-      (OrderNotify.stepN f op).2.length = 1) :=
-  OrderNotify.stepN_announced f op h
+/-- glyph_order_change_announced.  From EVERY state of a font — layers with their glyph names, each observed or not,
+its notifications held (with whatever is queued) or disabled or neither, a stored glyph order or none, a default layer
+or a deleted one — and for every operation of M-GlyphOrder but a direct write into the lib: `newGlyph`, `insertGlyph`
+(its own hold / newGlyph / release bracket), `del layer[name]`, a glyph renamed (also onto a taken name, also a name
+that lives on in another layer), the same through the font, `font.glyphOrder = …`, layers created, deleted, renamed,
+reordered, made default, held, RELEASED (the queued layer notifications reach the font one by one), disabled, enabled,
+the font's own holds:
 
-/-- … in particular after every history -/
-theorem glyph_order_change_announced_after_history (ops : List GlyphOrderV1.Op) (op : GlyphOrderV1.Op)
+* the posts of `Font.GlyphOrderChanged` form a chain from what `font.glyphOrder` answered before the operation to
+  what it answers after it — the first old value is the order before, every new value is what `font.glyphOrder`
+  answers at that instant, every later old value is what the previous post announced, the last new value is the order
+  after — and nothing posted means nothing changed: WHENEVER `font.glyphOrder` answers differently after the operation
+  than before it, `Font.GlyphOrderChanged` IS posted (payload = the stored lib value, compared modulo `None == []`);
+* an operation that posts at most one layer notification (everything but a release and `insertGlyph`, which ends with
+  one) posts at most one `Font.GlyphOrderChanged`: old = the order before the operation, new = the order the observer
+  reads = the order after the operation, and exactly one when the two differ.
+
+While the font's own notifications are not held every post is delivered at once (`snap` is what the observer reads).
+(`stepN` is M-GlyphOrder, the model C12 is proved about, plus the one post of `_set_glyphOrder`:
+`order_model_is_glyph_order_model`.) -/
+theorem glyph_order_change_announced (f : GlyphOrder.Font) (op : GlyphOrder.Op) (h : OrderNotify.viaFont op = true) :
+    OrderNotify.Chain (GlyphOrder.glyphOrder f) (GlyphOrder.glyphOrder (OrderNotify.stepN f op).1.1)
+      (OrderNotify.stepN f op).2 ∧
+    (OrderNotify.singlePost op = true →
+      (∀ ev ∈ (OrderNotify.stepN f op).2,
+        OrderNotify.norm ev.old = GlyphOrder.glyphOrder f ∧ OrderNotify.norm ev.new = OrderNotify.norm ev.snap ∧
+        OrderNotify.norm ev.snap = GlyphOrder.glyphOrder (OrderNotify.stepN f op).1.1) ∧
+      (OrderNotify.stepN f op).2.length ≤ 1 ∧
+      (GlyphOrder.glyphOrder (OrderNotify.stepN f op).1.1 ≠ GlyphOrder.glyphOrder f →
+        (OrderNotify.stepN f op).2.length = 1)) :=
+  ⟨OrderNotify.stepN_chain f op h, fun hs => OrderNotify.stepN_announced f op h hs⟩
+
+/-- … in particular after every history: an operation that changes what `font.glyphOrder` answers posts at least
+once, its first post carries the order before as old value, its last post the order after as new value -/
+theorem glyph_order_change_announced_after_history (ops : List GlyphOrder.Op) (op : GlyphOrder.Op)
     (h : OrderNotify.viaFont op = true)
-    (hne : GlyphOrderV1.glyphOrder (OrderNotify.stepN (GlyphOrderV1.run {} ops) op).1.1 ≠
-      GlyphOrderV1.glyphOrder (GlyphOrderV1.run {} ops)) :
-    ∃ ev, (OrderNotify.stepN (GlyphOrderV1.run {} ops) op).2 = [ev] ∧
-      OrderNotify.norm ev.old = GlyphOrderV1.glyphOrder (GlyphOrderV1.run {} ops) ∧
-      OrderNotify.norm ev.new = GlyphOrderV1.glyphOrder (OrderNotify.stepN (GlyphOrderV1.run {} ops) op).1.1 := by
-  obtain ⟨ht, _, hl⟩ := glyph_order_change_announced (GlyphOrderV1.run {} ops) op h
-  have h1 := hl hne
-  match hevs : (OrderNotify.stepN (GlyphOrderV1.run {} ops) op).2, h1 with
-  | [ev], _ =>
-    have := ht ev (by simp [hevs])
-    exact ⟨ev, rfl, this.1, this.2.1.trans this.2.2⟩
+    (hne : GlyphOrder.glyphOrder (OrderNotify.stepN (GlyphOrder.run {} ops) op).1.1 ≠
+      GlyphOrder.glyphOrder (GlyphOrder.run {} ops)) :
+    ∃ first last, (OrderNotify.stepN (GlyphOrder.run {} ops) op).2.head? = some first ∧
+      (OrderNotify.stepN (GlyphOrder.run {} ops) op).2.getLast? = some last ∧
+      OrderNotify.norm first.old = GlyphOrder.glyphOrder (GlyphOrder.run {} ops) ∧
+      OrderNotify.norm last.new = GlyphOrder.glyphOrder (OrderNotify.stepN (GlyphOrder.run {} ops) op).1.1 := by
+  have hc := (glyph_order_change_announced (GlyphOrder.run {} ops) op h).1
+  have hn := OrderNotify.chain_changed hc hne
+  match hevs : (OrderNotify.stepN (GlyphOrder.run {} ops) op).2, hn with
+  | x :: xs, _ =>
+    rw [hevs] at hc
+    obtain ⟨l, hl⟩ : ∃ l, (x :: xs).getLast? = some l := ⟨(x :: xs).getLast (by simp), List.getLast?_eq_some_getLast (by simp)⟩
+    exact ⟨x, l, rfl, hl, OrderNotify.chain_head hc x rfl, OrderNotify.chain_last hc l hl⟩
 
 /-- M-OrderNotify changes nothing of M-GlyphOrder: same font, same result, for every operation. -/
-theorem order_model_is_glyph_order_model (f : GlyphOrderV1.Font) (op : GlyphOrderV1.Op) :
-    (OrderNotify.stepN f op).1 = GlyphOrderV1.step f op :=
+theorem order_model_is_glyph_order_model (f : GlyphOrder.Font) (op : GlyphOrder.Op) :
+    (OrderNotify.stepN f op).1 = GlyphOrder.step f op :=
   OrderNotify.stepN_fst f op
 
 /-- a font that stores the order B, A: a new glyph, a rename and a delete are each announced with the order before
 and the order after; a glyph that is already listed changes nothing and is not announced -/
 example :
-    let f : GlyphOrderV1.Font := { layers := [("fore", { glyphs := ["A", "B"], observed := true })], lib := some ["B", "A"] }
+    let f : GlyphOrder.Font := { layers := [("fore", { glyphs := ["A", "B"], observed := true })], lib := some ["B", "A"],
+                                 default := some "fore" }
     ((OrderNotify.stepN f (.newGlyph "fore" "C")).2, (OrderNotify.stepN f (.rename "fore" "A" "A.alt")).2,
-     (OrderNotify.stepN f (.delGlyph "fore" "B")).2, (OrderNotify.stepN f (.newGlyph "fore" "A")).2) =
+     (OrderNotify.stepN f (.fontDelGlyph "B")).2, (OrderNotify.stepN f (.insertGlyph "fore" "A")).2) =
     ([⟨some ["B", "A"], some ["B", "A", "C"], some ["B", "A", "C"]⟩],
      [⟨some ["B", "A"], some ["B", "A.alt"], some ["B", "A.alt"]⟩],
      [⟨some ["B", "A"], some ["A"], some ["A"]⟩], []) := by decide
 /-- the last glyph of the order deleted: the key leaves the lib, the payload says `None`, the getter `[]` -/
 example :
-    let f : GlyphOrderV1.Font := { layers := [("fore", { glyphs := ["A"], observed := true })], lib := some ["A"] }
+    let f : GlyphOrder.Font := { layers := [("fore", { glyphs := ["A"], observed := true })], lib := some ["A"] }
     (OrderNotify.stepN f (.delGlyph "fore" "A")).2 = [⟨some ["A"], none, none⟩] := by decide
+/-- a held layer: two glyphs created and one deleted inside the bracket change nothing and post nothing; the release
+re-posts the three layer notifications and the font announces three updates, each starting where the last one ended -/
+example :
+    let f : GlyphOrder.Font := { layers := [("fore", { glyphs := ["A"], observed := true })], lib := some ["A"] }
+    let g := GlyphOrder.run f [.holdLayer "fore", .newGlyph "fore" "B", .newGlyph "fore" "C", .delGlyph "fore" "A"]
+    (GlyphOrder.glyphOrder g, (OrderNotify.stepN g (.releaseLayer "fore")).2,
+     OrderNotify.singlePost (.releaseLayer "fore")) =
+    (["A"], [⟨some ["A"], some ["A", "B"], some ["A", "B"]⟩, ⟨some ["A", "B"], some ["A", "B", "C"], some ["A", "B", "C"]⟩,
+             ⟨some ["A", "B", "C"], some ["B", "C"], some ["B", "C"]⟩], false) := by decide
+/-- a disabled layer: the glyph is created, the order is NOT updated, nothing is posted — and nothing is demanded,
+`font.glyphOrder` answers as before -/
+example :
+    let f : GlyphOrder.Font := { layers := [("fore", { glyphs := ["A"], observed := true, disabled := 1 })], lib := some ["A"] }
+    ((OrderNotify.stepN f (.newGlyph "fore" "B")).2, GlyphOrder.glyphOrder (OrderNotify.stepN f (.newGlyph "fore" "B")).1.1) =
+    ([], ["A"]) := by decide
 
 /-! ### 6c. The direction of a contour, zero area included -/
 
